@@ -17,6 +17,7 @@ LI = 'concepts/algorithms/lindig.py'
 CO = 'concepts/algorithms/common.py'
 FC = 'concepts/algorithms/fcbo.py'
 VZ = 'concepts/visualize.py'
+JU = 'concepts/junctors.py'
 AI = 'concepts/algorithms/__init__.py'
 CM = 'concepts/_common.py'
 TL = 'concepts/tools.py'
@@ -177,6 +178,13 @@ MUTANTS = [
     (LT, "            c.atoms = tuple(a for a in atoms if e | a._extent == e)", "            c.atoms = tuple(a for a in atoms if e & a._extent == a._extent)", ['lattices._init'], 'equivalent'),
     (LT, "        inst.supremum.__class__ = Supremum\n        inst.infimum.__class__ = Infimum", "        inst.infimum.__class__ = Infimum\n        inst.supremum.__class__ = Supremum", ['lattices._init'], 'breaks'),
     (LT, "            c.dindex = dindex\n", "            c.dindex = dindex + 1\n", ['lattices._init'], 'breaks'),
+    (JU, "        elif self is Replication:\n            self = Implication\n            left, right = right, left", "        elif self is Replication:\n            self = Implication", ['junctors.RelationMeta.__call__'], 'breaks'),
+    (JU, "        if not self.binary:\n            right = pairs", "        if self.binary:\n            right = pairs", ['junctors.RelationMeta.__call__'], 'breaks'),
+    (JU, "    Replication  <-  5| X| X|  | X|", "    Replication  <-  5| X| X| X| X|", ['junctors.RelationMeta.__call__', 'lemma.relation_patterns'], 'breaks'),
+    (JU, "        self.sort(key=lambda r: r.order)", "        self.sort(key=lambda r: r.kind)", ['junctors.Relations.__init__'], 'breaks'),
+    (JU, "if u.__class__ is Contingency), 2)", "if u.__class__ is not Contingency), 2)", ['junctors.Relations.__init__'], 'breaks'),
+    (JU, "binary = (Relation(l, r, zip(lbools, rbools))", "binary = (Relation(r, l, zip(lbools, rbools))", ['junctors.Relations.__init__'], 'breaks'),
+    (JU, "max((len(str(r.left)) for r in self), default=0)", "max(len(str(r.left)) for r in self)", ['junctors.Relations.tostring'], 'breaks'),
 ]
 
 
